@@ -13,7 +13,7 @@ From Coq Require Import List Ascii ZArith Bool.
 From CGV Require Import Base.PyBase Base.PyVal Base.NxGraph Gen.WriterGen Dialect.DialectImpl Write.WriteImpl Write.FragDefs
      Write.FragCheck Write.FormatBondingSpec.
 From CGV Require Import Frag.NDict Frag.StripImpl Frag.FragText Write.FormatStripRound.
-From CGV Require Import Write.WriteProofs Write.PathRound Write.FragRead Write.CoarseChain Write.CoarseFrags Write.CoarseGraph Write.CoarseTrack Write.CoarseGraphX Write.CoarseFragsX Write.AtomTree Reader.Grammar Reader.ReaderImpl.
+From CGV Require Import Write.WriteProofs Write.PathRound Write.FragRead Write.CoarseChain Write.CoarseFrags Write.CoarseGraph Write.CoarseTrack Write.CoarseGraphX Write.CoarseFragsX Write.AtomTree Write.AtomFrags Reader.Grammar Reader.ReaderImpl.
 From CGV Require Import Write.WriteDefs Write.TreeDefs Write.TreeRound Write.RingRound Write.FullMachine Write.FullRound Write.FullDomain Reader.Lin.
 From Coq Require Import Permutation.
 From CGV Require Import Frag.SmilesParse Frag.SmilesSpec Frag.Template Write.TreeDefs Write.DfsProofs Write.ConnFacts.
@@ -295,7 +295,7 @@ Theorem C08_atom_tree_descriptor_dict : forall Dl, ddl 0 Dl [] = dentries 0 Dl.
 Proof. exact (fun Dl => ddl_entries Dl 0%nat [] (fun kv (H : In kv []) => match H with end)). Qed.
 (** non-vacuity: a fragment with nested branches, a double bond on a branch edge, a triple bond on a chain edge, six
     elements incl. the two-letter Cl, descriptors of the four kinds with orders 0, 1, 2: the hypotheses hold
-    ([atom_ok_b] decides [atom_ok]), the text, the SMILES text, and what the model of fragment_iter reads back *)
+    ([atom_ok_b] decides [atom_ok]: C08_atom_ok_decided), the text, the SMILES text, and what the model of fragment_iter reads back *)
 Example C08_atom_tree_nonvacuous :
   let fo : float_oracle := fun _ => None in
   let dh := fun _ : Z => true in
@@ -313,6 +313,59 @@ Example C08_atom_tree_nonvacuous :
      | Err _ => False
      end.
 Proof. exact atom_tree_example. Qed.
+
+(** a LIST of ring-free all-atom fragments, any number, unbounded ([afrag] = name, graph, elements, descriptors, default-H
+    nodes; [af_ok]: name free of ',' and '=', the hypotheses of C08_atom_tree_roundtrip with the transcript "has default H
+    count" = membership in the list, a non-empty graph): there are texts t_1..t_n with [af_back] = everything
+    C08_atom_tree_roundtrip says of fragment i and t_i, such that write_cgsmiles_fragments(smiles_format=True) writes
+    "{#name1=t_1,...,#namen=t_n}", no t_i contains ',' so [fragment_split] returns the pairs (name_i, t_i) in order, and
+    the model of fragment_iter(all_atom=True) up to the hydrogen completion yields, in order and under each name,
+    [fragment_template] of t_i (whose value [af_back] gives: the fragment renumbered in the order of writing).
+    The two list-level facts are generic ([C08_split_definitions], [C08_write_definitions]: ANY entries / texts). *)
+Theorem C08_atom_fragments_roundtrip : forall fo (fs : list afrag), fs <> [] -> Forall af_ok fs ->
+  exists ts, Forall2 (af_back fo) fs ts /\
+    let txt := S "{" ++ join (S ",") (map nt_def (combine (map af_name fs) ts)) ++ S "}" in
+    write_cgsmiles_fragments true (map af_entry fs) = Ok txt
+    /\ fragment_split txt = combine (map af_name fs) ts
+    /\ read_atom_fragments fo txt = map (fun nt => (fst nt, fragment_template fo (fst nt) (snd nt))) (combine (map af_name fs) ts).
+Proof. exact atom_fragments_roundtrip. Qed.
+Theorem C08_af_back_spelled : forall fo F g el D dhl t, af_back fo (F, g, el, D, dhl) t <->
+  exists T, min_node g = Ok (rkey T) /\ dfs_edges g (rkey T) = Ok (redges T) /\ NoDup (rkeys T)
+    /\ t = tree_text el D (eo_of g) T
+    /\ write_graph_by (S "atomname") true (fun k => memz k dhl) g [] = Ok t
+    /\ strip_bonding_descriptors fo t = Ok (tree_clean el (eo_of g) T, ddl 0 (map D (worder T)) [], [], [])
+    /\ smiles_parse (tree_clean el (eo_of g) T) = Ok (tree_sgraph el (eo_of g) T)
+    /\ fragment_template fo F t = Ok (assemble F (tree_sgraph el (eo_of g) T) (ddl 0 (map D (worder T)) []) []).
+Proof. exact (fun fo F g el D dhl t => conj (fun H => H) (fun H => H)). Qed.
+(** generic: ANY non-empty list of (name, text) with names free of ',' '=' and texts free of ',' is split back *)
+Theorem C08_split_definitions : forall nts : list (pystr * pystr), nts <> [] -> Forall nt_ok nts ->
+  fragment_split (S "{" ++ join (S ",") (map nt_def nts) ++ S "}") = nts.
+Proof. exact split_definitions. Qed.
+(** generic: write_cgsmiles_fragments in either mode = "{" the definitions joined by "," "}" whenever every write_graph returns *)
+Theorem C08_write_definitions : forall sf (es : list frag_entry) (ts : list pystr),
+  Forall2 (fun (e : frag_entry) t => let '(nm, g, tr, dhl) := e in write_graph_by (S "atomname") sf (fun k => memz k dhl) g tr = Ok t) es ts ->
+  write_cgsmiles_fragments sf es
+  = Ok (S "{" ++ join (S ",") (map nt_def (combine (map (fun e : frag_entry => fst (fst (fst e))) es) ts)) ++ S "}").
+Proof. exact write_definitions. Qed.
+(** [atom_ok_b] / [orders_ok_b] decide the node and edge hypotheses *)
+Theorem C08_atom_ok_decided : forall dh el D n, atom_ok_b dh el D n = true -> atom_ok dh el D n.
+Proof. exact atom_ok_dec. Qed.
+Theorem C08_orders_ok_decided : forall g, orders_ok_b g = true -> orders_ok g.
+Proof. exact orders_ok_dec. Qed.
+Example C08_atom_fragments_nonvacuous :
+  Forall af_ok ex_afs
+  /\ write_cgsmiles_fragments true (map af_entry ex_afs) = Ok ex_atxt
+  /\ map fst (read_atom_fragments (fun _ => None) ex_atxt) = [S "X"; S "Y"]
+  /\ map (fun nr => match snd nr with Ok Tm => (map (fun a => (aget (S "element") a, aget (S "bonding") a)) (t_nodes Tm), t_edges Tm) | Err _ => ([], []) end)
+         (read_atom_fragments (fun _ => None) ex_atxt)
+     = [([(Some (VStr (S "C")), Some (VList [VStr (S "$a1")])); (Some (VStr (S "N")), None); (Some (VStr (S "C")), None); (Some (VStr (S "F")), None);
+          (Some (VStr (S "C")), None); (Some (VStr (S "Cl")), Some (VList [VStr (S "<x2"); VStr (S "!0")])); (Some (VStr (S "O")), Some (VList [VStr (S ">1")]))],
+         [(0, 1, VInt 1); (1, 2, VInt 1); (2, 3, VInt 1); (1, 4, VInt 1); (4, 5, VInt 3); (0, 6, VInt 2)]%nat);
+        ([(Some (VStr (S "C")), None); (Some (VStr (S "S")), Some (VList [VStr (S "$1")])); (Some (VStr (S "Br")), None)],
+         [(0, 1, VInt 1); (1, 2, VInt 1)]%nat)].
+Proof. exact atom_fragments_example. Qed.
+Example C08_ex_atxt : to_string ex_atxt = "{#X=C[$a](N(CF)C#Cl=[<x].[!])=O[>],#Y=CS[$]Br}"%string.
+Proof. reflexivity. Qed.
 
 Theorem C08_descriptors_on_atom0 : forall L : list dspec, L <> [] ->
   fold_left (fun d x => nd_append 0 (d_stored x) d) L [] = [(0%nat, map d_stored L)].
@@ -342,4 +395,9 @@ Print Assumptions C08_atom_tree_roundtrip.
 Print Assumptions C08_atom_tree_transcript.
 Print Assumptions C08_atom_tree_template_iso.
 Print Assumptions C08_atom_tree_descriptor_dict.
+Print Assumptions C08_atom_fragments_roundtrip.
+Print Assumptions C08_split_definitions.
+Print Assumptions C08_write_definitions.
+Print Assumptions C08_atom_ok_decided.
+Print Assumptions C08_orders_ok_decided.
 Print Assumptions C08_descriptors_on_atom0.
